@@ -273,7 +273,7 @@ def compare_names_with_model(ctx, model_rows: list):
                 meta.append(("sha", e, None))
             lines.append(f"catalog.path root={root} cat={fmt(cps(n))} e={fmt(cps(e))}")
             meta.append(("path", (n, e), (p, a)))
-    answers = d.batch(lines)
+    answers = driver_batch(d, lines)
     ctx.traces_validated += len(lines)
     for line, (kind, key, exp), ans in zip(lines, meta, answers):
         if kind == "sha":
@@ -324,6 +324,23 @@ def random_trace(rng, tid: int, with_f5: bool):
 
 def s_of(cp):
     return "".join(chr(c) for c in cp)
+
+
+def driver_batch(d, lines: list[str]) -> list[str]:
+    """`Driver.batch` in chunks of at most ~32 kB (or one line): long names make long lines, and writing more than a pipe
+    buffer while the driver is blocked on its own full output pipe would dead-lock."""
+    out: list[str] = []
+    chunk: list[str] = []
+    size = 0
+    for ln in lines:
+        if chunk and size + len(ln) + 1 > 32768:
+            out += d.batch(chunk)
+            chunk, size = [], 0
+        chunk.append(ln)
+        size += len(ln) + 1
+    if chunk:
+        out += d.batch(chunk)
+    return out
 
 
 def run_traces(ctx, base: Path, traces: list[dict], hashseeds: list[int]):
@@ -408,7 +425,7 @@ def check_trace(ctx, t: dict, proj: Path, res: list[list[dict]]):
     ctx.dist[f"trace:loads_with_prior_save={min(nhit, 5)}"] += 1
     if ctx.use_model:
         d = ctx.driver()
-        ans = d.batch(model_lines)
+        ans = driver_batch(d, model_lines)
         ctx.traces_validated += 1
         for ln, ex, an in zip(model_lines, model_expect, ans):
             if ex is None:
@@ -534,6 +551,14 @@ def check_e2e(ctx, case: dict, builds, logs):
     fid = None if only_doc else "F5"
     n = len(case["pairs"])
     ctx.case(["e2e", case["pairs"], case["v1"], case["v2"]], True, {"catalogs": [x[:20] for x in names], "pairs": n})
+    if not only_doc:
+        # a project that constructs a catalog with an undocumented name: the property demands rejection, i.e. every build
+        # fails while collecting (ValueError from the validator when the module is imported) and no task body runs
+        rejected = all(b["crash"] is None and b["exit_code"] == 3 and any(r.get("exc") == "ValueError" for r in b["collection"])
+                       for b in builds) and not any(logs)
+        if rejected:
+            ctx.dist["e2e:undocumented_name_rejected"] += 1
+            return
     for i, b in enumerate(builds):
         if b["crash"] or b["exit_code"] != 0:
             ctx.violation(f"e2e-exit: build {i} of a project whose tasks only pass values through catalog entries ended with "
@@ -567,6 +592,10 @@ def campaign(ctx):
     base = common.scratch_dir("c20")
     try:
         rng = ctx.rng
+        # 0 corpus first: stored witnesses (known findings, minimised past failures)
+        for f in sorted((common.VERIF / "corpus" / "C20").glob("*.json")):
+            replay_one(ctx, json.loads(f.read_text())["input"])
+            ctx.dist["corpus"] += 1
         model_rows: list = []
         # 1a exhaustive small scope (+ corpus witnesses of F5)
         names = list(small_names(3)) + ["a/b", "a b", "a/../b", "b", "a\n", "a.b"]
